@@ -184,9 +184,9 @@ theorem C18_vtk_arrays {R : Type} [Scalar R] (g : GridMesh R) (dim np nc : Nat) 
   have hp : pow2dim dim = 2 ^ dim := by rcases hdim with rfl | rfl <;> rfl
   refine ⟨?_, ?_, ?_, ?_, ?_, ?_, ?_⟩
   · unfold vtkPoints
-    rw [length_flatMap_uniform _ _ 3 (by intro n _; split <;> rfl), h2]; ring
+    rw [length_flatMap_uniform_mesh _ _ 3 (by intro n _; split <;> rfl), h2]; ring
   · unfold vtkConnectivity
-    rw [← List.flatMap_id, length_flatMap_uniform g.cells id (2 ^ dim) (fun cell hc => (hconn cell hc).1), h4]
+    rw [← List.flatMap_id, length_flatMap_uniform_mesh g.cells id (2 ^ dim) (fun cell hc => (hconn cell hc).1), h4]
   · intro c a ha
     unfold vtkConnectivity
     rw [← List.flatMap_id, getElem?_flatMap_uniform g.cells id (2 ^ dim) (fun cell hc => (hconn cell hc).1) c a ha]
@@ -487,33 +487,33 @@ end field
 /-! ### the hypotheses on libm are satisfiable: the real functions -/
 
 /-- `Transc ℝ` with the real `sqrt`, `sin`, `cos`, `π` (the members not used by the grid code are arbitrary) -/
-noncomputable def realTransc : Transc ℝ :=
+noncomputable def realTranscC18 : Transc ℝ :=
   { sqrt := Real.sqrt, exp := Real.exp, log := Real.log, sin := Real.sin, cos := Real.cos, tan := id, asin := id, acos := id,
     atan := id, tanh := id, erfc := id, floor := id, ceil := id, round := id, atan2 := fun a _ => a, pow := fun a _ => a,
     fmod := fun a _ => a, pi := Real.pi, eps := 0, dblMin := 0, dblMax := 0, inf := 0 }
 
-theorem realTransc_sin_cos (a : ℝ) : realTransc.sin a * realTransc.sin a + realTransc.cos a * realTransc.cos a = 1 := by
+theorem realTransc_sin_cos (a : ℝ) : realTranscC18.sin a * realTranscC18.sin a + realTranscC18.cos a * realTranscC18.cos a = 1 := by
   have := Real.sin_sq_add_cos_sq a
-  simpa [realTransc, sq] using this
+  simpa [realTranscC18, sq] using this
 
-theorem realTransc_sqrt (x : ℝ) (hx : 0 ≤ x) : realTransc.sqrt x * realTransc.sqrt x = x ∧ 0 ≤ realTransc.sqrt x :=
+theorem realTransc_sqrt (x : ℝ) (hx : 0 ≤ x) : realTranscC18.sqrt x * realTranscC18.sqrt x = x ∧ 0 ≤ realTranscC18.sqrt x :=
   ⟨Real.mul_self_sqrt hx, Real.sqrt_nonneg x⟩
 
 /-- an annulus with inner radius 1, outer radius 2, 8 × 2 cells: node (3, 1) -/
-example : ∃ n, (@annulusNodes2 ℝ (fieldScalar realTransc) 1 2 8 2)[1 * 8 + 3]? = some n ∧
+example : ∃ n, (@annulusNodes2 ℝ (fieldScalar realTranscC18) 1 2 8 2)[1 * 8 + 3]? = some n ∧
     n.depth = annulusClip (2 - (1 + ((1 : ℕ) : ℝ) * ((2 - 1) / ((2 : ℕ) : ℝ)))) := by
-  obtain ⟨n, h, _, _, hd, _⟩ := C18_coordinates_annulus_field realTransc realTransc_sin_cos realTransc_sqrt Real.pi_ne_zero
+  obtain ⟨n, h, _, _, hd, _⟩ := C18_coordinates_annulus_field realTranscC18 realTransc_sin_cos realTransc_sqrt Real.pi_ne_zero
     1 2 (by norm_num) (by norm_num) (by norm_num) 8 2 3 1 (by omega) (by omega)
   exact ⟨n, h, hd⟩
 
 /-- a 2-D chunk from 0 to 1 rad, radii 1 to 2, 4 × 2 cells: node (4, 2) lies on the outer radius -/
-example : ∃ n, (@chunkNodes2 ℝ (fieldScalar realTransc) 0 1 1 2 4 2)[(2 + 1) * 4 + 2]? = some n ∧ n.depth = 0 := by
-  obtain ⟨n, h, _, _, _, _, hd, _⟩ := C18_coordinates_chunk2_field realTransc realTransc_sin_cos 0 1 1 2 4 2 4 2 (by omega) (by omega)
+example : ∃ n, (@chunkNodes2 ℝ (fieldScalar realTranscC18) 0 1 1 2 4 2)[(2 + 1) * 4 + 2]? = some n ∧ n.depth = 0 := by
+  obtain ⟨n, h, _, _, _, _, hd, _⟩ := C18_coordinates_chunk2_field realTranscC18 realTransc_sin_cos 0 1 1 2 4 2 4 2 (by omega) (by omega)
   exact ⟨n, h, (hd (by omega) rfl).2⟩
 
 /-- with the real `π`, inner radius 1, outer radius 2 and `n_cell_z = 2`: any truncation `nt` of the quotient is at least 12 -/
-example (nt : ℕ) (h : @annulusQuotient ℝ (fieldScalar realTransc) 1 2 2 < (nt : ℝ) + 1) : 6 * 2 ≤ nt :=
-  C18_annulus_nt_ge realTransc (le_of_lt Real.pi_gt_three) 1 2 (by norm_num) (by norm_num) 2 nt (by omega) h
+example (nt : ℕ) (h : @annulusQuotient ℝ (fieldScalar realTranscC18) 1 2 2 < (nt : ℝ) + 1) : 6 * 2 ≤ nt :=
+  C18_annulus_nt_ge realTranscC18 (le_of_lt Real.pi_gt_three) 1 2 (by norm_num) (by norm_num) 2 nt (by omega) h
 
 /-! ## 4. `filter_vtu_mesh` -/
 
